@@ -176,6 +176,7 @@ func main() {
 		seed, _ := strconv.ParseUint(os.Args[2], 10, 64)
 		o := hx.NewOut(os.Args[4], os.Args[5])
 		gen(seed, os.Args[3], o)
+		o.Retry(runCase) // out of time in the parallel pass: re-run alone with 10x deadlines
 		o.Close()
 		return
 	}
@@ -191,6 +192,7 @@ func main() {
 				o.Obs(r)
 			}
 		}
+		o.Retry(runCase)
 		o.Close()
 		return
 	}
